@@ -264,12 +264,31 @@ class RefTrivium(object):
 
 # --------------------------------------------------------------------------------------------
 # Coq term printing
-def zl(xs):
-    return '[' + '; '.join(str(x) for x in xs) + ']'
-
-
 def triples(rows):
-    return '[' + '; '.join('(%d,%d,%d)' % tuple(r) for r in rows) + ']'
+    # hexadecimal literals: Coq parses them several times faster than decimal ones
+    return '[' + '; '.join('(%d,%d,%#x)' % tuple(r) for r in rows) + ']'
+
+
+HM = 0x9E3779B97F4A7C15F39CC0605CEDC8341082276BF3A27251F86C6A11D0C18E95
+
+
+def summary(pairs):
+    """mirror of PrngSpec.summary / AesModel.sm_summary on a list of (ready, value)"""
+    vs = [(v << 1) + r for r, v in pairs]
+    h = 0
+    for v in vs:
+        h = (h * HM + v + 1) & ((1 << 320) - 1)
+    out = [[h, len(vs), vs[-1] if vs else 0]]
+    prev = 0
+    n = 12
+    for i, v in enumerate(vs):
+        if (v & 1) and not (prev & 1):
+            if n == 0:
+                break
+            n -= 1
+            out.append([i, v >> 1])
+        prev = v
+    return out
 
 
 # --------------------------------------------------------------------------------------------
@@ -362,9 +381,9 @@ def check_aes_comb(ctx):
         sim.step({'x': row['enc'], 'k': k})
         back.append(sim.tracer.trace['o_dec'][-1])
     shard = 4 if ctx.tier == 'quick' else 10
-    res = ctx.coq_eval(['aes_case (%d, %d)' % kb for kb in pairs], IMPORTS, tag='aes', shard=shard, jobs=10)
+    res = ctx.coq_eval(['aes_case (%#x, %#x)' % kb for kb in pairs], IMPORTS, tag='aes', shard=shard, jobs=10)
     npart = 12 if ctx.tier == 'quick' else 60
-    parts = ctx.coq_eval(['aes_parts %d' % b for (k, b) in pairs[:npart]], IMPORTS, tag='aesparts', shard=20, jobs=6)
+    parts = ctx.coq_eval(['aes_parts %#x' % b for (k, b) in pairs[:npart]], IMPORTS, tag='aesparts', shard=20, jobs=6)
     for i, ((k, b), row, bk, r) in enumerate(zip(pairs, rows, back, res)):
         m_enc, m_dec, s_enc, s_dec = r
         rep = {'key': hex(k), 'block': hex(b)}
@@ -425,8 +444,13 @@ def check_aes_sm(ctx, which):
     chunk = 40
     # the model is a state machine: evaluate whole prefix-free chunks by re-running from the start would be
     # quadratic; instead evaluate the full trace once per shard of independent expressions = one expression
-    fn = 'enc_sm_trace' if which == 'enc' else 'dec_sm_trace'
+    fn = 'enc_sm_sum' if which == 'enc' else 'dec_sm_sum'
     model = ctx.coq_eval(['%s %s' % (fn, triples(sched))], IMPORTS, tag='aessm' + which, shard=1, jobs=1)[0]
+    if model != summary(trace):
+        ctx.model_mismatch('AES %s state machine and Lib/AesModel.v disagree (trace summary: [digest, cycles, last], '
+                           'ready rising edges [cycle, text])' % which,
+                           {'circuit': which, 'model': model, 'implementation': summary(trace),
+                            'schedule': [[a, hex(b), hex(c)] for a, b, c in sched]})
     ref = ref_aes_enc if which == 'enc' else ref_aes_dec
     last = None
     nready = 0
@@ -444,9 +468,6 @@ def check_aes_sm(ctx, which):
             elif which == 'enc' and 1 <= age <= 10 and got[1] != ref_aes_rounds(last[2], last[1])[age - 1]:
                 ctx.spec_violation('aes-sm:enc:round-state', 'encrypt_state_m: state after round %d differs from FIPS-197' % (age - 1), rep)
             nready += want_ready
-        if got != model[t]:
-            ctx.model_mismatch('AES %s state machine and Lib/AesModel.v disagree at cycle %d' % (which, t), rep)
-            break
         if r:
             last = (t, x, k)
     nres = sum(1 for s in sched if s[0])
@@ -528,7 +549,7 @@ def expand(rows):
 
 
 def quads(rows):
-    return '(expand [' + '; '.join('(%d,%d,%d,%d)' % tuple(r) for r in rows) + '])'
+    return '(expand [' + '; '.join('(%d,%d,%#x,%d)' % tuple(r) for r in rows) + '])'
 
 
 def prng_configs(ctx):
@@ -543,9 +564,9 @@ def prng_configs(ctx):
         for bpc in BPCS:
             for style in ('protocol', 'random'):
                 if quick:
-                    keep = ((bw in (7, 128) and style == 'protocol') or bpc == 64 or
-                            (bw, bpc) in ((65, 8), (200, 16), (129, 32), (63, 4), (1, 1)) or
-                            (style == 'random' and (bw, bpc) in ((256, 2), (65, 16), (127, 32), (200, 8))))
+                    keep = (bpc == 64 or (bw == 128 and style == 'protocol') or
+                            (style == 'protocol' and (bw, bpc) in ((7, 1), (65, 8), (200, 16), (129, 32), (63, 4), (1, 2))) or
+                            (style == 'random' and (bw, bpc) in ((256, 4), (65, 16), (127, 32), (200, 8))))
                     if not keep:
                         continue
                 for rep in range(1 if quick else 2):
@@ -594,14 +615,14 @@ def check_prngs(ctx):
                 rf.append(list(want))
         impl.append((tr, rf))
         if kind == 'lfsr':
-            exprs_m.append('lfsr_trace %d %s' % (bw, quads(rle)))
-            exprs_s.append('s_lfsr_trace %d %s' % (bw, quads(rle)))
+            exprs_m.append('lfsr_sum %d %s' % (bw, quads(rle)))
+            exprs_s.append('s_lfsr_sum %d %s' % (bw, quads(rle)))
         elif kind == 'xoro':
-            exprs_m.append('xo_trace %d %s' % (bw, quads(rle)))
-            exprs_s.append('s_xo_trace %d %s' % (bw, quads(rle)))
+            exprs_m.append('xo_sum %d %s' % (bw, quads(rle)))
+            exprs_s.append('s_xo_sum %d %s' % (bw, quads(rle)))
         else:
-            exprs_m.append('tv_trace %d %d %s' % (bw, bpc, quads(rle)))
-            exprs_s.append('s_tv_trace %d %d %s' % (bw, bpc, quads(rle)))
+            exprs_m.append('tv_sum %d %d %s' % (bw, bpc, quads(rle)))
+            exprs_s.append('s_tv_sum %d %d %s' % (bw, bpc, quads(rle)))
     res_m = ctx.coq_eval(exprs_m, IMPORTS, tag='prngm', shard=6, jobs=12)
     res_s = ctx.coq_eval(exprs_s, IMPORTS, tag='prngs', shard=6, jobs=12)
     for (cfg, rle), (tr, rf), rm, rs in zip(cases, impl, res_m, res_s):
@@ -620,19 +641,23 @@ def check_prngs(ctx):
         ctx.count('prng-ready-pulses', kind, nready)
         rep_d = {'generator': kind, 'bitwidth': bw, 'bits_per_cycle': bpc, 'schedule_style': style, 'seed': ctx.seed,
                  'rows_rle(load,req,seed,count)': [[a, b, hex(c), n] for a, b, c, n in rle]}
-        if rs != rf:
+        as_pairs = (lambda l: [(0, v) for v in l]) if kind == 'lfsr' else (lambda l: [tuple(x) for x in l])
+        sum_impl, sum_ref = summary(as_pairs(tr)), summary(as_pairs(rf))
+        if rs != sum_ref:
             ctx.model_mismatch('Lib/PrngSpec.v and the Python reference disagree on %s' % (cfg,), rep_d)
-        if tr != rf or tr != rs:
-            other = rf if tr != rf else rs
-            t = [a != b for a, b in zip(tr, other)].index(True)
+        if tr != rf:
+            t = [a != b for a, b in zip(tr, rf)].index(True)
             what = 'rand'
-            if kind != 'lfsr' and tr[t][0] != other[t][0]:
+            if kind != 'lfsr' and tr[t][0] != rf[t][0]:
                 what = 'ready'
             ctx.spec_violation('prng:%s:%s' % (kind, what), '%s(bitwidth=%d%s): %s at cycle %d is %s, the published algorithm/protocol gives %s' % (
-                kind, bw, '' if bpc is None else ', bits_per_cycle=%d' % bpc, what, t, tr[t], other[t]), dict(rep_d, cycle=t))
-        if tr != rm:
-            t = [a != b for a, b in zip(tr, rm)].index(True)
-            ctx.model_mismatch('%s circuit and Lib/PrngModel.v disagree at cycle %d (%s)' % (kind, t, cfg), dict(rep_d, cycle=t))
+                kind, bw, '' if bpc is None else ', bits_per_cycle=%d' % bpc, what, t, tr[t], rf[t]), dict(rep_d, cycle=t))
+        elif sum_impl != rs:
+            ctx.spec_violation('prng:%s:coq-spec' % kind, '%s(bitwidth=%d%s): trace summary differs from Lib/PrngSpec.v' % (
+                kind, bw, '' if bpc is None else ', bits_per_cycle=%d' % bpc), dict(rep_d, spec=rs, implementation=sum_impl))
+        if sum_impl != rm:
+            ctx.model_mismatch('%s circuit and Lib/PrngModel.v disagree (%s) (trace summary: [digest, cycles, last], '
+                               'ready rising edges [cycle, rand])' % (kind, cfg), dict(rep_d, model=rm, implementation=sum_impl))
         if style == 'suite-vectors':
             for vi, (s, want) in enumerate(TRIVIUM_VECTORS):
                 t = 23 * vi + 22
